@@ -68,6 +68,14 @@ Proof.
   rewrite (gen_decode_envelope vs els He). reflexivity.
 Qed.
 
+(* with_tl=True is the outer Type/Length check followed by with_tl=False *)
+Lemma parse_lp_with_tl w :
+  parse_lp_packet_v2_gen true w = do v <- parse_and_check_tl w LP_PACKET ;; parse_lp_packet_v2_gen false v.
+Proof.
+  unfold parse_lp_packet_v2_gen, parse_lp_packet_v2, parse_lp_value, dec_lp, gen_decode. change TYPE_LP_PACKET with LP_PACKET.
+  destruct (parse_and_check_tl w LP_PACKET); reflexivity.
+Qed.
+
 Definition unfragmented (vs : list value) : Prop :=
   lp_attr vs attr_frag_index = VNone /\ lp_attr vs attr_frag_count = VNone.
 
